@@ -6,6 +6,7 @@ From Coq Require Import List NArith Lia Bool.
 From Coq Require Import ZifyBool ZifyN ZifyNat.
 From Minimq Require Import Bytes Varint Utf8 Props Ser De Reader Spec Arena Core Util Lts ArenaLemmas ArenaOps Inv
   Quota Status Persist Frames Limits Reach.
+From Minimq Require Import PacketShape.
 Import ListNotations.
 Local Open Scope N_scope.
 
@@ -92,7 +93,7 @@ Proof.
   intros s p I H. pose proof (oi_arena _ (inv_ob _ I)) as W.
   destruct p; cbn [handle_packet] in *; try exact H.
   - destruct q; [exact H| |]; destruct pid; try exact H; try (apply FrameInv_queue_ctl; exact H).
-    destruct (mem_id _ _); [apply FrameInv_queue_ctl; exact H|]. destruct (_ <=? _); apply FrameInv_queue_ctl; exact H.
+    q2_split; apply FrameInv_queue_ctl; exact H.
   - pose proof (FrameInv_ack (s_ob s) pid W H) as Ha.
     destruct (ack_packet _ _) as [o f]. cbn [fst] in Ha. destruct f; cbn [negb]; [|exact H]. destruct (rc_success _); exact Ha.
   - pose proof (FrameInv_ack (s_ob s) pid W H) as Ha.
@@ -305,8 +306,7 @@ Proof.
   intros s p I. pose proof (oi_arena _ (inv_ob _ I)) as W.
   destruct p; cbn [handle_packet]; try apply calm_refl.
   - destruct q; [apply calm_refl| |]; destruct pid; try apply calm_refl; try apply calm_queue_ctl_checked.
-    destruct (mem_id _ _); [apply calm_queue_ctl_checked|]. destruct (_ <=? _); [apply calm_queue_ctl_checked|].
-    exact (calm_queue_ctl_checked (set_srv s (s_srv s ++ [n])) _ _).
+    q2_split; apply calm_queue_ctl_checked.
   - pose proof (calm_ack_packet (s_ob s) pid W) as Ha.
     destruct (ack_packet _ _) as [o f]. cbn [fst] in Ha. destruct f; cbn [negb]; [|apply calm_refl]. destruct (rc_success _); exact Ha.
   - pose proof (calm_ack_packet (s_ob s) pid W) as Ha.
@@ -530,8 +530,7 @@ Proof.
   intros s p I. pose proof (oi_arena _ (inv_ob _ I)) as W.
   destruct p; cbn [handle_packet]; try apply calmp_refl.
   - destruct q; [apply calmp_refl| |]; destruct pid; try apply calmp_refl; try apply calmp_queue_ctl_checked.
-    destruct (mem_id _ _); [apply calmp_queue_ctl_checked|]. destruct (_ <=? _); [apply calmp_queue_ctl_checked|].
-    exact (calmp_queue_ctl_checked (set_srv s (s_srv s ++ [n])) _ _).
+    q2_split; apply calmp_queue_ctl_checked.
   - pose proof (calmp_ack_packet (s_ob s) pid W) as Ha.
     destruct (ack_packet _ _) as [o f]. cbn [fst] in Ha. destruct f; cbn [negb]; [|apply calmp_refl]. destruct (rc_success _); exact Ha.
   - pose proof (calmp_ack_packet (s_ob s) pid W) as Ha.
